@@ -322,6 +322,45 @@ func Corpus() []CorpusScenario {
 				{{Op: pipeline.Delete, Obj: ing("ns1", "ing1", nil)}},
 			},
 		},
+		{
+			// backend shards: one update re-creates a backend identical (the ingress is parsed again)
+			// and adds brand-new backends in other shards: their shard files must be written
+			Name: "20-shards-identical-recreation-plus-new-backend",
+			Opt:  Opt{BackendShards: 3},
+			H: [][]pipeline.Change{
+				creates(svc("ns1", "svc1"), EndpointsRef("ns1", "svc1", "http", 8080, []string{"10.1.0.1"}, nil, 0),
+					svc("ns1", "svc2"), EndpointsRef("ns1", "svc2", "http", 8080, []string{"10.1.1.1"}, nil, 0),
+					svc("ns1", "svc3"), EndpointsRef("ns1", "svc3", "http", 8080, []string{"10.1.2.1"}, nil, 0),
+					svc("ns1", "svc4"), EndpointsRef("ns1", "svc4", "http", 8080, []string{"10.1.3.1"}, nil, 0),
+					ing("ns1", "ing1", map[string]string{"dynamic-scaling": "false"}, rule("d1.local", pth("/", "svc1")))),
+				{{Op: pipeline.Update, Obj: ing("ns1", "ing1", map[string]string{"dynamic-scaling": "false"}, rule("d1.local", pth("/", "svc1"), pth("/app2", "svc2")))}},
+				{{Op: pipeline.Update, Obj: ing("ns1", "ing1", map[string]string{"dynamic-scaling": "false", "server-alias": "alias.example"}, rule("d1.local", pth("/", "svc1"), pth("/app2", "svc2")))},
+					{Op: pipeline.Create, Obj: ing("ns1", "ing2", map[string]string{"dynamic-scaling": "false"}, rule("b.example", pth("/", "svc3")))}},
+				{{Op: pipeline.Update, Obj: ing("ns1", "ing1", map[string]string{"dynamic-scaling": "false", "server-alias": "alias2.example"}, rule("d1.local", pth("/", "svc1"), pth("/app2", "svc2")))},
+					{Op: pipeline.Create, Obj: ing("ns1", "ing3", map[string]string{"dynamic-scaling": "false"}, rule("a.example", pth("/", "svc4")))}},
+				{{Op: pipeline.Update, Obj: EndpointsRef("ns1", "svc1", "http", 8080, []string{"10.1.0.1", "10.1.0.2"}, nil, 0)}},
+			},
+		},
+		{
+			// (dynamic-scaling=false: otherwise the empty slots added to a new backend flag its shard again)
+			// backend shards: one update re-creates a backend identical (the ingress is parsed again)
+			// and adds brand-new backends in other shards: their shard files must be written
+			Name: "21-shards8-identical-recreation-plus-new-backend",
+			Opt:  Opt{BackendShards: 8},
+			H: [][]pipeline.Change{
+				creates(svc("ns1", "svc1"), EndpointsRef("ns1", "svc1", "http", 8080, []string{"10.1.0.1"}, nil, 0),
+					svc("ns1", "svc2"), EndpointsRef("ns1", "svc2", "http", 8080, []string{"10.1.1.1"}, nil, 0),
+					svc("ns1", "svc3"), EndpointsRef("ns1", "svc3", "http", 8080, []string{"10.1.2.1"}, nil, 0),
+					svc("ns1", "svc4"), EndpointsRef("ns1", "svc4", "http", 8080, []string{"10.1.3.1"}, nil, 0),
+					ing("ns1", "ing1", map[string]string{"dynamic-scaling": "false"}, rule("d1.local", pth("/", "svc1")))),
+				{{Op: pipeline.Update, Obj: ing("ns1", "ing1", map[string]string{"dynamic-scaling": "false"}, rule("d1.local", pth("/", "svc1"), pth("/app2", "svc2")))}},
+				{{Op: pipeline.Update, Obj: ing("ns1", "ing1", map[string]string{"dynamic-scaling": "false", "server-alias": "alias.example"}, rule("d1.local", pth("/", "svc1"), pth("/app2", "svc2")))},
+					{Op: pipeline.Create, Obj: ing("ns1", "ing2", map[string]string{"dynamic-scaling": "false"}, rule("b.example", pth("/", "svc3")))}},
+				{{Op: pipeline.Update, Obj: ing("ns1", "ing1", map[string]string{"dynamic-scaling": "false", "server-alias": "alias2.example"}, rule("d1.local", pth("/", "svc1"), pth("/app2", "svc2")))},
+					{Op: pipeline.Create, Obj: ing("ns1", "ing3", map[string]string{"dynamic-scaling": "false"}, rule("a.example", pth("/", "svc4")))}},
+				{{Op: pipeline.Update, Obj: EndpointsRef("ns1", "svc1", "http", 8080, []string{"10.1.0.1", "10.1.0.2"}, nil, 0)}},
+			},
+		},
 	}
 }
 
